@@ -69,7 +69,7 @@ type instance struct {
 	hedged   func(sk []byte, rnd *core.Stream, msg []byte) ([]byte, error)
 	// newVerifier, if set, makes a verifier node that keeps one key object for its
 	// lifetime and loads every received key into it (per run; never shared across runs)
-	newVerifier func() func(pk, msg []byte, ctx string, sig []byte) bool
+	newVerifier   func() func(pk, msg []byte, ctx string, sig []byte) bool
 	infPK, infSig []byte // encodings of the group identity as key and as signature, if the format has them
 }
 
